@@ -38,6 +38,7 @@ type liveDB struct {
 	model   *lib.RefMap
 	own     func(k []byte) bool
 	late    *lateOwn
+	view    *lib.GateFS // the file system view (working directory) it was opened on
 }
 
 type refMon struct {
@@ -278,7 +279,14 @@ func (s *shareOwn) ExclusivelyOwnsTable(uri string, startKey, endKey []byte) (bo
 	return true, nil
 }
 
-func c09Shared(c *lib.Ctx) {
+func c09Shared(c *lib.Ctx) { c09SharedMode(c, false) }
+
+// c09ScaleInOwnDir: the shared family with the scale-in phase forced into its rarest shape: one database is ahead
+// of its neighbours in WAL numbers (aborted job checkpoints), the in-process successor runs in the directory of one
+// of its predecessors, and it takes up to four checkpoints of its own before the inherited one is dropped.
+func c09ScaleInOwnDir(c *lib.Ctx) { c09SharedMode(c, true) }
+
+func c09SharedMode(c *lib.Ctx, ownDir bool) {
 	e := newEnv(c, 4+c.R.Intn(9), 20)
 	defer e.close()
 	r := e.r
@@ -308,7 +316,7 @@ func c09Shared(c *lib.Ctx) {
 	var asked int64
 	for i := 0; i < n; i++ {
 		view, dir := e.fsView(false)
-		l := &liveDB{name: dir, model: lib.NewRefMap()}
+		l := &liveDB{name: dir, model: lib.NewRefMap(), view: view}
 		idx := i
 		l.own = func(k []byte) bool { return ownerOf(k, n) == idx }
 		for _, kv := range src.snap.All() {
@@ -449,7 +457,32 @@ func c09Shared(c *lib.Ctx) {
 	// in this process, opened from those of d2 and d3 — so A and B share d2's tables, which A knows from its SECOND
 	// handle. B works on, compacts shared tables away, its table objects are collected and its cleanups ask A.
 	// With two databases one successor is opened from both checkpoints.
-	if len(live) >= 2 && r.Intn(2) == 0 {
+	if len(live) >= 2 && (ownDir || r.Intn(2) == 0) {
+		// (a third of these cases) one database first takes part in one to three job checkpoints that the others never
+		// reach (the job aborts them): its WAL numbers run ahead of its neighbours'
+		if ownDir || r.Intn(3) == 0 {
+			d := lib.Pick(r, live)
+			for k := 1 + r.Intn(3); k > 0; k-- {
+				aid := nextID
+				nextID++
+				e.logOp("%s.checkpoint(%d) (aborted by the job, nobody else takes it)", d.name, aid)
+				h, err := d.db.Checkpoint(aid)()
+				if err != nil {
+					c.Fail("checkpoint-error", wit(), "%s checkpoint %d: %v", d.name, aid, err)
+				}
+				d.listURI = h.URI
+				if r.Intn(2) == 0 {
+					key := lib.Pick(r, e.keys)
+					if d.own(key) {
+						v := e.vg.Next(r, 20)
+						d.db.Put(key, v)
+						d.model.Put(key, v)
+					}
+				}
+			}
+			mon.check("after aborted job checkpoints of one database", live, wit)
+			c.Feat("aborted_job_checkpoints_of_one_database", 1)
+		}
 		id := nextID
 		nextID++
 		for _, d := range live {
@@ -469,8 +502,17 @@ func c09Shared(c *lib.Ctx) {
 		handle := func(d *liveDB) recovery.CheckpointHandle {
 			return recovery.CheckpointHandle{CheckpointID: id, URI: d.listURI}
 		}
-		successor := func(otherProcess bool, own func(k []byte) bool, srcs ...*liveDB) *liveDB {
-			view, dir := e.fsView(false)
+		// sameDirAs != nil: the successor runs under the operator id of that predecessor, i.e. in its working directory
+		// (Options.ID / a restarted worker): the merged checkpoint's files of that predecessor are its own files.
+		successor := func(otherProcess bool, sameDirAs *liveDB, own func(k []byte) bool, srcs ...*liveDB) *liveDB {
+			var view *lib.GateFS
+			var dir string
+			if sameDirAs != nil {
+				view, dir = sameDirAs.view, sameDirAs.name
+				c.Feat("scale_in_successor_in_predecessor_directory", 1)
+			} else {
+				view, dir = e.fsView(false)
+			}
 			names := ""
 			var hs []recovery.CheckpointHandle
 			mg := &liveDB{model: lib.NewRefMap(), own: own}
@@ -482,6 +524,7 @@ func c09Shared(c *lib.Ctx) {
 				hs = append(hs, handle(d))
 			}
 			mg.name = dir + " (from " + names + ")"
+			mg.view = view
 			if otherProcess {
 				view = view.AsOtherProcess()
 				mg.name += " in another process"
@@ -492,8 +535,12 @@ func c09Shared(c *lib.Ctx) {
 		if len(old) >= 3 {
 			d1, d2, d3 := old[0], old[1], old[2]
 			// ownership of keys: A takes d1's and d2's share, B d3's (d2's rows in B are foreign rows of a shared table)
-			a := successor(true, func(k []byte) bool { return d1.own(k) || d2.own(k) }, d1, d2)
-			b := successor(false, d3.own, d2, d3)
+			a := successor(true, nil, func(k []byte) bool { return d1.own(k) || d2.own(k) }, d1, d2)
+			var bDir *liveDB
+			if ownDir || r.Intn(2) == 0 {
+				bDir = lib.Pick(r, []*liveDB{d2, d3})
+			}
+			b := successor(false, bDir, d3.own, d2, d3)
 			for _, kv := range d1.model.All() {
 				a.model.Put(kv.K, kv.V)
 			}
@@ -506,7 +553,12 @@ func c09Shared(c *lib.Ctx) {
 			next = []*liveDB{a, b}
 		} else {
 			d1, d2 := old[0], old[1]
-			m := successor(r.Intn(2) == 0, func(k []byte) bool { return d1.own(k) || d2.own(k) }, d1, d2)
+			other := !ownDir && r.Intn(2) == 0
+			var mDir *liveDB
+			if !other && (ownDir || r.Intn(2) == 0) {
+				mDir = lib.Pick(r, []*liveDB{d1, d2})
+			}
+			m := successor(other, mDir, func(k []byte) bool { return d1.own(k) || d2.own(k) }, d1, d2)
 			for _, kv := range d1.model.All() {
 				m.model.Put(kv.K, kv.V)
 			}
@@ -560,6 +612,30 @@ func c09Shared(c *lib.Ctx) {
 				if cid == id {
 					inherited = append(inherited, ws...)
 				}
+			}
+		}
+		if ownDir {
+			// up to three more job checkpoints of the successors while the inherited checkpoint is still retained:
+			// their WAL numbers pass the numbers the predecessors had reached
+			for k := r.Intn(4); k > 0; k-- {
+				xid := nextID
+				nextID++
+				for _, d := range live {
+					e.logOp("%s.checkpoint(%d)", d.name, xid)
+					h, err := d.db.Checkpoint(xid)()
+					if err != nil {
+						c.Fail("checkpoint-error", wit(), "%s checkpoint %d: %v", d.name, xid, err)
+					}
+					d.listURI = h.URI
+					for _, key := range e.keys {
+						if d.own(key) && r.Intn(3) == 0 {
+							v := e.vg.Next(r, 20)
+							d.db.Put(key, v)
+							d.model.Put(key, v)
+						}
+					}
+				}
+				mon.check(fmt.Sprintf("after job checkpoint %d of the successors (inherited checkpoint still retained)", xid), live, wit)
 			}
 		}
 		id2 := nextID
